@@ -36,6 +36,10 @@
             requires forall|n: &AstAny, b: bool| call_ensures(f, (n,), b) ==> b == (*n is DirectiveOnce)
             ensures r == (exists|j: int| 0 <= j < nodes@.len() && #[trigger] nodes@[j] is DirectiveOnce)
         { unimplemented!() }
+        #[verifier::external_body]
+        pub fn verif_extend_nodes(v: &mut Vec<AstAny>, more: Vec<AstAny>) ensures final(v)@ == old(v)@ + more@ { unimplemented!() }
+        #[verifier::external_body]
+        pub fn verif_once_new() -> (r: std::collections::HashSet<String>) ensures forall|n: Seq<char>| !(#[trigger] once_has(&r, n)) { unimplemented!() }
         /// `VEC.splice(i..(i + 1), ITEMS)`: the element at i replaced by ITEMS
         #[verifier::external_body]
         pub fn verif_splice_replace(v: &mut Vec<AstAny>, i: usize, items: Vec<AstAny>)
